@@ -30,7 +30,18 @@ def load(prop_id):
 def descriptor(module, root_seed, index, tier):
     seed = seed_hash(root_seed, module.ID, index)
     rng = random.Random(seed)
-    R = module.gen(rng, tier)
+    import signal
+
+    def _gen_alarm(_s, _f):
+        raise core.HarnessError(f"generator of {module.ID} did not return within 20 s (seed {seed}, index {index})")
+
+    old = signal.signal(signal.SIGALRM, _gen_alarm)
+    signal.setitimer(signal.ITIMER_REAL, 20.0)
+    try:
+        R = module.gen(rng, tier)
+    finally:
+        signal.setitimer(signal.ITIMER_REAL, 0)
+        signal.signal(signal.SIGALRM, old)
     R["property"] = module.ID
     R["seed"] = seed
     R["index"] = index
@@ -63,7 +74,12 @@ def _work(prop_id, root_seed, tier, indices, n_samples):
     for i in indices:
         if ABORT.value:
             break
-        R = descriptor(module, root_seed, i, tier)
+        try:
+            R = descriptor(module, root_seed, i, tier)
+        except core.HarnessError as e:
+            res.append({"seed": None, "index": i, "status": "harness_error", "oracle": "harness:generator", "message": str(e), "R": {"index": i}, "digest": "", "n_events": 0, "probes": {}, "faults": {}, "stats": {}, "nontrivial": False, "state": None, "interleaving": None, "sim_seconds": 0.0, "real_s": 20.0})
+            ABORT.value = 1
+            continue
         out = run_one(module, R, watchdog=getattr(module, "WATCHDOG", 60.0))
         if out["status"] != "ok" or i < n_samples:
             out["R"] = R
